@@ -209,6 +209,9 @@ impl Op {
     fn parse(s: &str) -> Option<Op> {
         Op::all().into_iter().find(|o| o.name() == s)
     }
+    fn known_broken_undo(self) -> bool {
+        matches!(self, Op::Del(_) | Op::DelAll | Op::UpdKey(_))
+    }
     fn is_dml(self) -> bool {
         !matches!(self, Op::Sp(_) | Op::Rel(_) | Op::Rbt(_))
     }
@@ -356,7 +359,9 @@ fn valid(table: Table, start: Start, ops: &[Op], strict: bool) -> bool {
 }
 
 /// every valid script of exactly `len` operations, in a fixed order
-fn gen_scripts(table: Table, start: Start, len: usize, strict: bool, sym: bool, f: &mut dyn FnMut(&[Op])) {
+/// `clean`: the alphabet without the operations whose undo is known to be broken (DELETE, DELETE all,
+/// UPDATE of the key column; see findings) — the remainder that is explored deeper
+fn gen_scripts(table: Table, start: Start, len: usize, strict: bool, sym: bool, clean: bool, f: &mut dyn FnMut(&[Op])) {
     fn rec(table: Table, start: Start, len: usize, strict: bool, sym: bool, m: &Model, cur: &mut Vec<Op>, alphabet: &[Op], f: &mut dyn FnMut(&[Op])) {
         if cur.len() == len {
             f(cur);
@@ -382,7 +387,7 @@ fn gen_scripts(table: Table, start: Start, len: usize, strict: bool, sym: bool, 
             cur.pop();
         }
     }
-    let alphabet: Vec<Op> = Op::all().into_iter().filter(|o| o.offered(table)).collect();
+    let alphabet: Vec<Op> = Op::all().into_iter().filter(|o| o.offered(table) && !(clean && o.known_broken_undo())).collect();
     rec(table, start, len, strict, sym, &Model::new(start), &mut vec![], &alphabet, f);
 }
 
@@ -1019,20 +1024,33 @@ impl<'a> Runner<'a> {
         Ok(v)
     }
 
-    /// smallest sub-script (fewest operations, simplest start state, fixed candidate order) that fails the
-    /// same layer under the same kind; the script itself if none does
+    /// smallest script made of a subset of the operations (fewest operations first, then simplest start
+    /// state, fixed candidate order) that fails the same layer under the same kind; the script itself if
+    /// no smaller one does
     fn minimise(&mut self, sc: &Script, kind: &str, layer: &str) -> Script {
         let n = sc.ops.len();
         let strict = valid(sc.table, sc.start, &sc.ops, true);
-        // proper index subsets, fewest operations first, then in a fixed order
-        let mut masks: Vec<u32> = (0..(1u32 << n) - 1).collect();
+        // index subsets (the last one is the script itself), fewest operations first, then in a fixed order
+        let mut masks: Vec<u32> = (0..(1u32 << n)).collect();
         masks.sort_by_key(|m| (m.count_ones(), *m));
         for mask in masks {
-            let ops: Vec<Op> = (0..n).filter(|i| mask & (1 << i) != 0).map(|i| sc.ops[i]).collect();
+            let mut ops: Vec<Op> = (0..n).filter(|i| mask & (1 << i) != 0).map(|i| sc.ops[i]).collect();
             if !sc.term.applicable(&ops) {
                 continue;
             }
-            for &start in STARTS.iter().filter(|s| **s <= sc.start) {
+            // savepoint names are arbitrary: without s1 the inner name s2 becomes s1
+            if !ops.contains(&Op::Sp(1)) {
+                for o in ops.iter_mut() {
+                    *o = match *o {
+                        Op::Sp(2) => Op::Sp(1),
+                        Op::Rel(2) => Op::Rel(1),
+                        Op::Rbt(2) => Op::Rbt(1),
+                        x => x,
+                    };
+                }
+            }
+            // any start state, simplest first (a pattern that needs a pre-existing row shows up with rows12)
+            for &start in STARTS.iter() {
                 if !valid(sc.table, start, &ops, strict) {
                     continue;
                 }
@@ -1098,33 +1116,32 @@ fn signature(min: &Script, classes: &[u8], kind: &str, layer: &str, at: usize) -
 // exploration
 // ---------------------------------------------------------------------------
 struct Plan {
-    /// (table, start, max length with the full key alphabet, max length with key symmetry reduction)
-    depth: BTreeMap<(Table, Start), (usize, usize)>,
+    /// (table, start) -> max length with (the full key alphabet, key symmetry reduction, the clean alphabet
+    /// = without the operations whose undo is known to be broken)
+    depth: BTreeMap<(Table, Start), (usize, usize, usize)>,
     reopen_max_len: usize,
     lax_len: usize,
 }
 fn plan(ctx: &Ctx) -> Plan {
     let q = ctx.quick();
-    let d = |full: usize, sym: usize| (full, sym);
     let mut depth = BTreeMap::new();
     let over: Option<usize> = ctx.opt("depth").and_then(|s| s.parse().ok());
     for table in TABLES {
         for start in STARTS {
             let v = match (table, start, q) {
                 (_, Start::Rows123, true) => continue,
-                (Table::IntPk, Start::Rows12, true) => d(3, 4),
-                (Table::IntPk, Start::Empty, true) => d(3, 4),
-                (Table::TextPk, _, true) => d(3, 4),
-                (Table::Plain, _, true) => d(3, 4),
-                (Table::Split, Start::Rows12, true) => d(2, 3),
-                (Table::Split, Start::Empty, true) => d(2, 3),
+                (Table::Plain | Table::IntPk, _, true) => (3, 4, 5),
+                (Table::TextPk, _, true) => (3, 4, 4),
+                (Table::Split, _, true) => (2, 3, 4),
                 (Table::Split, Start::Rows123, false) => continue,
-                (Table::Split, _, false) => d(3, 5),
-                (_, Start::Rows123, false) => d(3, 5),
-                (_, _, false) => d(4, 6),
+                (Table::Split, _, false) => (3, 5, 6),
+                (_, Start::Rows123, false) => (3, 5, 5),
+                (Table::IntPk, _, false) => (4, 6, 7),
+                (Table::Plain, _, false) => (4, 6, 6),
+                (Table::TextPk, _, false) => (4, 5, 6),
             };
             let v = match over {
-                Some(o) => (v.0.min(o), o),
+                Some(o) => (v.0.min(o), v.1.min(o), v.2.min(o)),
                 None => v,
             };
             depth.insert((table, start), v);
@@ -1224,30 +1241,30 @@ impl<'a> Explorer<'a> {
     fn explore(&mut self, rep: &mut Reporter) {
         let plan = plan(self.ctx);
         let only_table = self.ctx.opt("table").and_then(Table::parse);
-        let maxlen = plan.depth.values().map(|v| v.1).max().unwrap_or(0);
+        let maxlen = plan.depth.values().map(|v| v.2).max().unwrap_or(0);
         rep.bound("max_inner_operations", json!(maxlen));
-        rep.bound("depths(table,start)->(full key alphabet, with key-symmetry reduction)", json!(plan.depth.iter().map(|(k, v)| format!("{}/{}: {}/{}", k.0.name(), k.1.name(), v.0, v.1)).collect::<Vec<_>>()));
+        rep.bound("depths(table,start)->(full key alphabet / with key-symmetry reduction / clean alphabet without DELETE, DELETE all, UPDATE key)", json!(plan.depth.iter().map(|(k, v)| format!("{}/{}: {}/{}/{}", k.0.name(), k.1.name(), v.0, v.1, v.2)).collect::<Vec<_>>()));
         rep.bound("reopen_terminator_max_len", json!(plan.reopen_max_len));
         rep.bound("lax_alphabet_max_len", json!(plan.lax_len));
         let mut unit = 0u64;
         let mut totals: BTreeMap<String, u64> = BTreeMap::new();
         for len in 0..=maxlen {
-            for (&(table, start), &(dfull, dsym)) in &plan.depth {
-                if only_table.map(|t| t != table).unwrap_or(false) || len > dsym {
+            for (&(table, start), &(dfull, dsym, dclean)) in &plan.depth {
+                if only_table.map(|t| t != table).unwrap_or(false) || len > dclean {
                     continue;
                 }
                 // passes: strict alphabet (full keys up to dfull, symmetric beyond), lax alphabet up to lax_len
                 let mut scripts: Vec<Vec<Op>> = vec![];
-                gen_scripts(table, start, len, true, len > dfull, &mut |ops| scripts.push(ops.to_vec()));
+                gen_scripts(table, start, len, true, len > dfull, len > dsym, &mut |ops| scripts.push(ops.to_vec()));
                 let strict_n = scripts.len();
                 if len <= plan.lax_len && len > 0 {
-                    gen_scripts(table, start, len, false, false, &mut |ops| {
+                    gen_scripts(table, start, len, false, false, false, &mut |ops| {
                         if !valid(table, start, ops, true) {
                             scripts.push(ops.to_vec());
                         }
                     });
                 }
-                *totals.entry(format!("len{len}:strict")).or_insert(0) += strict_n as u64;
+                *totals.entry(format!("len{len}:{}", if len > dsym { "clean-alphabet" } else { "strict" })).or_insert(0) += strict_n as u64;
                 *totals.entry(format!("len{len}:lax-only")).or_insert(0) += (scripts.len() - strict_n) as u64;
                 for (si, ops) in scripts.iter().enumerate() {
                     for term in TERMS {
@@ -1361,24 +1378,36 @@ fn dev(mode: &str) {
             for table in TABLES {
                 for start in STARTS {
                     let mut line = format!("{:16} {:8}", table.name(), start.name());
-                    for len in 0..=6 {
+                    for len in 0..=7 {
+                        if len > 5 {
+                            let mut clean = 0u64;
+                            gen_scripts(table, start, len, true, true, true, &mut |ops| {
+                                clean += TERMS.iter().filter(|t| t.applicable(ops) && **t != Term::Reopen).count() as u64;
+                            });
+                            line.push_str(&format!(" | len{len}: clean {}", clean));
+                            continue;
+                        }
                         let mut n = [0u64; 2];
                         for (i, sym) in [false, true].into_iter().enumerate() {
                             let mut pairs = 0u64;
-                            gen_scripts(table, start, len, true, sym, &mut |ops| {
+                            gen_scripts(table, start, len, true, sym, false, &mut |ops| {
                                 pairs += TERMS.iter().filter(|t| t.applicable(ops) && **t != Term::Reopen).count() as u64;
                             });
                             n[i] = pairs;
                         }
                         let mut lax = 0u64;
                         if len <= 3 {
-                            gen_scripts(table, start, len, false, false, &mut |ops| {
+                            gen_scripts(table, start, len, false, false, false, &mut |ops| {
                                 if !valid(table, start, ops, true) {
                                     lax += 2;
                                 }
                             });
                         }
-                        line.push_str(&format!(" | len{len}: {}/{} lax {}", n[0], n[1], lax));
+                        let mut clean = 0u64;
+                        gen_scripts(table, start, len, true, true, true, &mut |ops| {
+                            clean += TERMS.iter().filter(|t| t.applicable(ops) && **t != Term::Reopen).count() as u64;
+                        });
+                        line.push_str(&format!(" | len{len}: {}/{} lax {} clean {}", n[0], n[1], lax, clean));
                     }
                     println!("{line}");
                 }
@@ -1390,7 +1419,7 @@ fn dev(mode: &str) {
             println!("calibrate: {:?}", r.calibrate());
             for table in TABLES {
                 let mut scripts = vec![];
-                gen_scripts(table, Start::Rows12, 3, true, false, &mut |ops| scripts.push(ops.to_vec()));
+                gen_scripts(table, Start::Rows12, 3, true, false, false, &mut |ops| scripts.push(ops.to_vec()));
                 let t0 = std::time::Instant::now();
                 let mut fails = 0;
                 let n = scripts.len().min(300);
